@@ -76,12 +76,15 @@ type Checker struct {
 	bad     int
 	n       int
 	partial map[string]bool
+	// sigTag distinguishes the pass: "" (plain read-back) or "after-buffer-reuse-" (the store
+	// recycles the buffers it lent to the Get callback / iterator)
+	sigTag string
 }
 
 // violation sig: accessor + kind of difference + field (no data, no backend: stable across seeds).
 func (c *Checker) fail(accessor, kind, field, detail string) {
 	c.bad++
-	sig := "readback-" + accessor + "-" + kind
+	sig := "readback-" + c.sigTag + accessor + "-" + kind
 	if field != "" {
 		sig += "-" + field
 	}
@@ -164,6 +167,43 @@ func normBlock(b *core.Block) *core.Block {
 		return nil
 	}
 	return &core.Block{Header: b.Header, Transactions: normTxs(b.Transactions), Receipts: normRcs(b.Receipts)}
+}
+
+// DeleteCheck runs the lazy consumer used by RevertHead (DeleteTransactionsAndReceipts iterates
+// over the stored transactions to find the hash-index and L1-message entries to delete) and checks
+// that exactly the block's index entries are gone.
+func DeleteCheck(c *Checker, d db.KeyValueStore, rec *Rec) {
+	n := rec.Header.Number
+	var err error
+	perr, panicked, _ := lib.Try(func() error {
+		err = d.Update(func(txn db.IndexedBatch) error { return core.DeleteTransactionsAndReceipts(txn, txn, n) })
+		return nil
+	})
+	c.n++
+	c.res.Hit("accessor:core.DeleteTransactionsAndReceipts")
+	if panicked {
+		c.fail("core.DeleteTransactionsAndReceipts", "panic", "", perr.Error())
+		return
+	}
+	if err != nil {
+		c.fail("core.DeleteTransactionsAndReceipts", "error", errClass(err), err.Error())
+		return
+	}
+	for i, tx := range rec.Txs {
+		if _, err := core.GetTransactionByHash(d, (*felt.TransactionHash)(tx.Hash())); !errors.Is(err, db.ErrKeyNotFound) {
+			c.fail("core.DeleteTransactionsAndReceipts", "stale-hash-index", "", fmt.Sprintf("transaction %d of the deleted block is still found by hash (err=%v)", i, err))
+			return
+		}
+		if l1, ok := tx.(*core.L1HandlerTransaction); ok {
+			if _, err := core.GetL1HandlerTxnHashByMsgHash(d, l1.MessageHash()); !errors.Is(err, db.ErrKeyNotFound) {
+				c.fail("core.DeleteTransactionsAndReceipts", "stale-l1-message-index", "", fmt.Sprintf("L1 message of transaction %d still resolves (err=%v)", i, err))
+				return
+			}
+		}
+	}
+	if _, err := core.GetTransactionsByBlockNumber(d, n); !errors.Is(err, db.ErrKeyNotFound) {
+		c.fail("core.DeleteTransactionsAndReceipts", "blob-not-deleted", "", fmt.Sprintf("block transactions still readable (err=%v)", err))
+	}
 }
 
 // ReadBack reads rec through every accessor of package core and of blockchain.Reader and compares
